@@ -473,7 +473,10 @@ class EndpointResponseHandlerGenerator:
 
                             type_service = UnifiedTypeService(self.schemas)
                             response_type = type_service.resolve_schema_type(resp_schema, context)
-                            if self._should_use_cattrs_structure(response_type):
+                            if self._is_text_body(resp_ir, response_type):
+                                # text/* bodies are the string itself, not a JSON document
+                                writer.write_line("return response.text")
+                            elif self._should_use_cattrs_structure(response_type):
                                 deserialization_code = self._get_cattrs_deserialization_code(response_type, data_expr)
                                 writer.write_line(f"return {deserialization_code}")
                                 self._register_cattrs_import(context)
@@ -580,6 +583,9 @@ class EndpointResponseHandlerGenerator:
             else:
                 # Traditional Union handling with try/except fallback
                 self._write_union_response_handling(writer, context, strategy.return_type, data_expr)
+        elif self._is_text_body(strategy.response_ir, strategy.return_type):
+            # text/* bodies are the string itself, not a JSON document
+            writer.write_line("return response.text")
         elif self._should_use_cattrs_structure(strategy.return_type):
             # Register cattrs import
             context.add_import(f"{context.core_package_name}.cattrs_converter", "structure_from_dict")
@@ -599,6 +605,12 @@ class EndpointResponseHandlerGenerator:
         if any("event-stream" in ct for ct in content_types):
             return False
         return any(ct.lower() == "application/x-ndjson" for ct in content_types)
+
+    def _is_text_body(self, response_ir: IRResponse | None, return_type: str) -> bool:
+        """Check if a response body is plain text: a `str` declared with text/* media types only."""
+        if return_type != "str" or not response_ir or not response_ir.content:
+            return False
+        return all(ct.startswith("text/") for ct in response_ir.content)
 
     def _get_response_schema(self, response_ir: IRResponse) -> IRSchema | None:
         """Extract the schema from a response IR."""
